@@ -429,7 +429,14 @@ func (e *Evaluator) query(q *Query, members []interface{}, root interface{}) ver
 		return e.query(q.L, members, root)
 	case QOr, QAnd:
 		l := e.query(q.L, members, root)
-		decided := l.whole && (l.all == (q.Op == QOr))
+		// the left operand decides the outcome for every member: false everywhere for &&,
+		// true everywhere for || (whether it is a whole verdict or a per-member one)
+		decided := true
+		for _, b := range l.expand(n) {
+			if b != (q.Op == QOr) {
+				decided = false
+			}
+		}
 		if decided {
 			e.OptDepth++
 		}
